@@ -150,13 +150,14 @@ def step (s : St) : List String → St × String
     | none => (s, "bad-op")
   | ["clear"] => let (s, r) := runOp { s with watchers := [] } .clear; showRes s r
   | ["dump"] => (s, dumpLine s)
+  | ["ledger"] => let (c, d) := s.w.ledgerCounts; (s, s!"c={c} d={d}")
   | ["view", t, r, id] =>
     -- C13: the entry stored as `t` viewed as `r` (downcast_ref / is / guard downcast all agree)
     match keyOf t id, tyOfName r with
     | some k, some rt =>
       (s, match s.w.lookup k with
           | none => "absent"
-          | some _ => let b := showBool (k.ty == rt); s!"ref={b} is={b} guard={b}")
+          | some _ => let b := showBool (viewAs k.ty rt).isSome; s!"ref={b} is={b} guard={b}")
     | _, _ => (s, "bad-op")
   | "notify" :: evs =>
     match parseEvents evs with
